@@ -171,3 +171,15 @@ def getAsOne : VarGet → Except Err Var
 /-- `zip(a, b)` -/
 def zip (a : List α) (b : List β) : List (α × β) := List.zip a b
 end Py
+
+/-! ## bounds as `Task.get_bounds` sees them: every component of a variable's `get_bounds()` is a number or a list of numbers (`BEntry`) -/
+namespace Py
+/-- `lb.extend(lb_)`: iterating a list-valued bound gives its numbers; a number is not iterable -/
+def bentryAsList : BEntry → Except Err (List BEntry)
+  | .vec xs => .ok (xs.map .scalar)
+  | .scalar _ => .error .typeError
+
+/-- `np.array(lb)`: a list of numbers, or of equally long lists; anything ragged is a `ValueError` (numpy ≥ 1.24) -/
+def npArray (l : List BEntry) : Except Err (List BEntry) :=
+  if TaskDecl.homogeneous l then .ok l else .error .valueError
+end Py
